@@ -20,13 +20,13 @@ META = {
     "ready": True,
     "level": "fault_enumeration",
     "technique": "TLA+ life-cycle model with an environment action that modifies inputs, checked by TLC (ChangedInputImpliesError); each (input kind, modification kind, instant) replayed into the real binary through cfg-guarded pause points",
-    "level_text": "modification instants = every phase boundary from 'loaded' to 'written' (10), input kinds = object, archive, thin-archive index, thin-archive member, linker script given with -T, file named by INPUT() in a script (6), modification kinds = rewrite, append, replace-by-rename, touch (4), x fork/no-fork: the model enumerates the instants, the harness crosses them with kinds; quick replays a seeded sample, thorough the full product.",
-    "level_note": "Modifications always carry a strictly newer mtime (>= 50 ms later); forged identical mtimes are out of scope. Rewrites keep the length so the mapped input cannot SIGBUS; a modification after the final re-verification cannot be detected by any design and is not generated.",
+    "level_text": "modification instants = every phase boundary from 'loaded' to 'written' (10), input kinds = object, archive, thin-archive index, thin-archive member, linker script given with -T, file named by INPUT() in a script (6), modification kinds = rewrite, append, replace-by-rename, touch, replace-by-rename with an older file, rewrite-and-backdate (6), x fork/no-fork: the model enumerates the instants, the harness crosses them with kinds; quick replays a seeded sample, thorough the full product.",
+    "level_note": "Modifications always change the mtime (>= 50 ms later, or 2 s earlier for the 'older' kinds); a modification that restores the identical mtime is out of scope. Rewrites keep the length so the mapped input cannot SIGBUS; a modification after the final re-verification cannot be detected by any design and is not generated.",
     "engine": "tlc",
 }
 
 KINDS = ["object", "archive", "thin-index", "thin-member", "script-T", "script-input"]
-MODS = ["rewrite", "append", "rename", "touch"]
+MODS = ["rewrite", "append", "rename", "touch", "rename-older", "backdate"]
 
 
 def modifier(target, mod):
@@ -44,7 +44,19 @@ def modifier(target, mod):
             t = p.with_name(p.name + ".new")
             t.write_bytes(data)
             os.replace(t, p)
-        os.utime(p, ns=(st.st_atime_ns, st.st_mtime_ns + 50_000_000))
+        if mod == "rename-older":
+            # the path is replaced by a different file with an OLDER mtime (mv foo.o.prev foo.o,
+            # a restore from a cache that preserves times)
+            t = p.with_name(p.name + ".prev")
+            t.write_bytes(data)
+            os.utime(t, ns=(st.st_atime_ns, st.st_mtime_ns - 2_000_000_000))
+            os.replace(t, p)
+        elif mod == "backdate":
+            with open(p, "r+b") as fh:
+                fh.write(data)
+            os.utime(p, ns=(st.st_atime_ns, st.st_mtime_ns - 2_000_000_000))
+        else:
+            os.utime(p, ns=(st.st_atime_ns, st.st_mtime_ns + 50_000_000))
         return {str(p.relative_to(d))}
     return f
 
@@ -133,4 +145,4 @@ def run(ctx):
     cov["samples"] = trim_samples(samples, 4, 800)
     cov["exhaustive"] = not ctx.quick
     return {"level": "fault_enumeration", "coverage": cov,
-            "assumptions": ["strictly newer mtime on every modification", "pause points placed by hooks; the modification is real"]}
+            "assumptions": ["every modification changes the mtime (newer, or older for the rename-older/backdate kinds)", "pause points placed by hooks; the modification is real"]}
